@@ -74,7 +74,18 @@ static void prop(Ctx &c) {
     if (!opened) { if (pr.ok && h.meta_ok) c.label("over-strict-refusal"); }
     else if (pr.int_overflow) F_("int-overflow-accepted", "the header opens although an integer in it is longer than ten bytes or denotes a value >= 2^64 (reference: " + pr.reason + ")");
     else if (int_narrow) F_("int-narrowed", "the header opens although an int-sized field holds a value > INT_MAX (reference parse: hash_type=" + std::to_string(h.hash_type) + " comp_type=" + std::to_string(h.comp_type) + " index_size=" + std::to_string(h.index_size) + " chunk_hash_type=" + std::to_string(h.chunk_hash_type) + " sig_count=" + std::to_string(h.sig_count) + ")");
-    else if (!pr.ok) c.label("ref-rejects-structure-lib-opens: " + pr.reason);   // not an integer-fitting question and no authoritative parse to compare with
+    else if (!pr.ok) {
+        // The reference stopped at `pr.reason`; every field it had read from the bytes up to that point is still what the file says,
+        // and an opened context must report exactly those values (e.g. an unknown flag bit must not be reported away).
+        c.label("ref-rejects-structure-lib-opens: " + pr.reason);
+        auto want = [&](const char *what, ssize_t got, uint64_t w) { if ((w >> 63) ? got >= 0 : got != (ssize_t)w) F_(std::string("getter-") + what, std::string(what) + ": reported " + std::to_string(got) + ", file says " + std::to_string(w) + " (reference stopped later, at: " + pr.reason + ")"); };
+        if (h.stage >= 1) { want("full-hash-type", zck_get_full_hash_type(z), h.hash_type); want("lead-length", zck_get_lead_length(z), h.lead_size); want("header-length", zck_get_header_length(z), h.total_size);
+            char *g = zck_get_header_digest(z); std::string gs = g ? g : "(null)"; free(g); if (gs != hex(h.header_digest)) F_("getter-header-digest", "header-digest: reported " + gs + ", file says " + hex(h.header_digest)); }
+        if (h.stage >= 2) { want("flags", zck_get_flags(z), h.flags); char *g = zck_get_data_digest(z); std::string gs = g ? g : "(null)"; free(g); if (gs != hex(h.data_digest)) F_("getter-data-digest", "data-digest: reported " + gs + ", file says " + hex(h.data_digest)); }
+        if (h.stage >= 6) want("chunk-hash-type", zck_get_chunk_hash_type(z), h.chunk_hash_type);
+        if (h.stage >= 8) { want("chunk-count", zck_get_chunk_count(z), h.entries.size()); }
+        if (h.stage >= 2) c.nontrivial();
+    }
     else {
         // ---- full comparison of everything the API reports
         auto S = [](ref::u128 v) { return v >> 63 ? std::string(">=2^63") : std::to_string((uint64_t)v); };
